@@ -339,6 +339,9 @@ func (w *Worker) Settle() error {
 	if err != nil {
 		return err
 	}
+	if os.Getenv("VERIF_SETTLE_DEBUG") != "" && rep.Busy > 20 {
+		fmt.Fprintf(os.Stderr, "settle: %d busy polls, last busy: %s\n", rep.Busy, rep.Last)
+	}
 	if !rep.OK {
 		return fmt.Errorf("settle did not reach idle within 120 s (last busy: %s): %w", rep.Last, ErrWatchdog)
 	}
